@@ -33,6 +33,7 @@ For multiple constraints, use MILP or CP-SAT.
 """
 
 from collections.abc import Sequence
+from fractions import Fraction
 
 from solvor.types import Result, Status
 from solvor.utils import check_non_negative, check_sequence_lengths
@@ -73,7 +74,7 @@ def solve_knapsack(
     int_weights = [max(1, int(w * scale)) if w > 0 else 0 for w in weights]
 
     # DP table: dp[w] = max value achievable with capacity w
-    dp = [0.0] * (int_capacity + 1)
+    dp = [0] * (int_capacity + 1)
 
     # Track which items were selected
     # keep[i][w] = True if item i was taken at capacity w
@@ -103,13 +104,17 @@ def solve_knapsack(
     # Compute actual objective with original values
     objective = sum(values[i] for i in selected)
 
-    # Verify weight constraint (in case of scaling errors)
-    total_weight = sum(weights[i] for i in selected)
-    if total_weight > capacity + 1e-9:
+    # Verify weight constraint (in case of scaling errors); exactly, so that no tolerance admits an overweight selection
+    if sum(_exact(weights[i]) for i in selected) > _exact(capacity):
         # Scaling caused infeasibility, fall back to greedy
         return _greedy_fallback(values, weights, capacity, minimize)
 
     return Result(selected_tuple, objective, 0, n, Status.OPTIMAL)
+
+
+def _exact(x) -> Fraction:
+    """A weight is read as the decimal number it prints as (0.1 + 0.2 fills 0.3 exactly)."""
+    return Fraction(x) if isinstance(x, int) else Fraction(str(x))
 
 
 def _to_int_capacity(capacity: float, weights: Sequence[float]) -> tuple[int, float]:
@@ -153,12 +158,12 @@ def _greedy_fallback(
         indices.sort(key=lambda i: values[i] / weights[i] if weights[i] > 0 else float("inf"), reverse=True)
 
     selected = []
-    remaining = capacity
+    remaining = _exact(capacity)
 
     for i in indices:
-        if weights[i] <= remaining:
+        if _exact(weights[i]) <= remaining:
             selected.append(i)
-            remaining -= weights[i]
+            remaining -= _exact(weights[i])
 
     selected.sort()  # Return in original order
     selected_tuple = tuple(selected)
